@@ -79,6 +79,11 @@ one critical section — a fact regenerated on every run (`limitCheckAtomic`); `
 about the code only as long as it holds. -/
 theorem C07_limit_check_atomic : Generated.Hub.limitCheckAtomic = true := by decide
 
+/-- The list of federated sessions (`Hub.federatedSessions`) is not one of the model's tables (federation is
+outside the hub model); that an ended session is taken off it is a fact of `Hub.removeSession` regenerated on
+every run, and the check's judge looks at the real list after every step (`residue:federated`). -/
+theorem C07_federated_cleared : Generated.Hub.federatedClearedOnRemove = true := by decide
+
 private def demo : List Op :=
   [.connect 1, .connect 2, .hello 1 0 .internal "" true false, .hello 2 0 .client "bob" false false,
    .join 2 "roomA" "nc2" (.ok none ""), .addVirtual 1 "roomA" "v1" "carol" none true, .bye 1]
